@@ -242,4 +242,48 @@ func actionsDeep(stmts []ast.Stmt, prefix string) []string {
 }
 
 // extraGens: further Gen files, added as properties are built.
-func extraGens(root, st *pkg) []*genFile { return []*genFile{genRecv(root)} }
+func extraGens(root, st *pkg) []*genFile { return []*genFile{genRecv(root), genSession(root)} }
+
+// assignsTo lists, in source order, the right-hand sides assigned to the selector `sel` (e.g. "t.isSecure") in fn,
+// interleaved with the calls named in `marks` (so that the order "Handshake, isSecure=false, VerifyHostname,
+// isSecure=true" is visible).
+func assignsTo(fd *ast.FuncDecl, sel string, marks map[string]bool) []string {
+	var out []string
+	if fd == nil {
+		return []string{"<missing function>"}
+	}
+	ast.Inspect(fd.Body, func(n ast.Node) bool {
+		switch s := n.(type) {
+		case *ast.AssignStmt:
+			for i, l := range s.Lhs {
+				if exprString(l) == sel && i < len(s.Rhs) {
+					out = append(out, sel+"="+exprString(s.Rhs[i]))
+				}
+			}
+		case *ast.CallExpr:
+			if name := exprString(s.Fun); marks[name] {
+				out = append(out, name)
+			}
+		}
+		return true
+	})
+	return out
+}
+
+func genSession(root *pkg) *genFile {
+	g := newGen("SessionSteps")
+	g.def("newSession", "List String", leanStrList(fnActions(root.fn("", "NewSession"))), "flattened actions of NewSession (order of the steps and their early returns)")
+	g.def("startTls", "List String", leanStrList(fnActions(root.fn("Session", "startTlsIfSupported"))), "flattened actions of Session.startTlsIfSupported")
+	g.def("resume", "List String", leanStrList(fnActions(root.fn("Session", "resume"))), "flattened actions of Session.resume")
+	g.def("bind", "List String", leanStrList(fnActions(root.fn("Session", "bind"))), "flattened actions of Session.bind")
+	g.def("rfc3921", "List String", leanStrList(fnActions(root.fn("Session", "rfc3921Session"))), "flattened actions of Session.rfc3921Session")
+	g.def("enable", "List String", leanStrList(fnActions(root.fn("Session", "EnableStreamManagement"))), "flattened actions of Session.EnableStreamManagement")
+	g.def("clientConnect", "List String", leanStrList(fnActions(root.fn("Client", "connect"))), "flattened actions of Client.connect")
+	g.def("transportConnectSecure", "List String",
+		leanStrList(assignsTo(root.fn("XMPPTransport", "Connect"), "t.isSecure", map[string]bool{"net.DialTimeout": true, "t.StartStream": true})),
+		"assignments to isSecure in XMPPTransport.Connect, relative to the dial and the stream start")
+	g.def("transportStartTLSSecure", "List String",
+		leanStrList(assignsTo(root.fn("XMPPTransport", "StartTLS"), "t.isSecure", map[string]bool{"tlsConn.Handshake": true, "tlsConn.VerifyHostname": true})),
+		"assignments to isSecure in XMPPTransport.StartTLS, relative to Handshake and VerifyHostname")
+	return g
+}
